@@ -24,7 +24,7 @@ def run(ctx):
         r = ctx.tlc_exhaustive("MCConsensus", "MCConsensus_%s.cfg" % name, timeout=1800, dump=dot)
         limit = 2500 if ctx.quick() else 0
         files, summ = ctx.replay("consensus", graph=dot, shards=16, maxlen=40, limit=limit, name="consensus_" + name,
-                                 env={"VERIF_ND": str(nd), "VERIF_SELF": str(self_)}, timeout=3000)
+                                 env={"VERIF_ND": str(nd), "VERIF_SELF": str(self_)}, timeout=3000, chunk=300)
         ok = ctx.validate("TraceConsensus", "TraceConsensus.cfg", files, what=name, timeout=3000)
         if first:
             ctx.cov["samples"] = summ["samples"]
@@ -37,7 +37,7 @@ def run(ctx):
         # larger design-side configurations (no replay of the full graph): 4 deputies; 4 blocks by simulation + replay
         ctx.tlc_exhaustive("MCConsensus", "MCConsensus_n3d4s0.cfg", timeout=1800)
         sim = ctx.tlc_simulate("MCConsensus", "MCConsensus_n4d3s0.cfg", num=3000, depth=14, prefix="c4")
-        files, summ = ctx.replay("consensus", sim=sim, shards=16, name="consensus_sim_n4d3s0", env={"VERIF_ND": "3", "VERIF_SELF": "0"}, timeout=3000)
+        files, summ = ctx.replay("consensus", sim=sim, shards=16, name="consensus_sim_n4d3s0", env={"VERIF_ND": "3", "VERIF_SELF": "0"}, timeout=3000, chunk=300)
         ctx.validate("TraceConsensus", "TraceConsensus.cfg", files, what="simulated 4-block behaviours", timeout=3000)
     ctx.assumptions += ["block universe: every parent function on 3 (simulation: 4) blocks, every miner assignment; blocks carry no transactions",
                         "a signature is abstracted to (signer, encoding variant); real signatures are produced with the deputies' keys, variant 1 = s -> n-s"]
